@@ -420,10 +420,12 @@ def main(argv=None):
             json.dump(ev, f, indent=1, default=repr)
     print(f"{pid} {a.tier}: {total} cases, {len(nontriv)} distinct non-trivial, {len(buckets)} violation bucket(s), "
           f"{wall:.1f}s{' (stopped early by wall cap)' if stopped else ''}")
+    if buckets:
+        return 1
     if total == 0 or len(nontriv) < 2:
         print("HARNESS-ERROR: generator produced no non-trivial cases")
         return 2
-    return 1 if buckets else 0
+    return 0
 
 
 def entry():
